@@ -49,6 +49,28 @@ def check_name_tests(A, R: Report, rid: str, funcs=None, only=None):
     return n
 
 
+def check_expand_tasks(A, R: Report, rid: str):
+    fex = A.func('Chain._expand_tasks')
+    appends = [n for n in A.typer.own_nodes(fex) if isinstance(n, ast.Call) and isinstance(n.func, ast.Attribute) and n.func.attr == 'append' and src(n.args[0]) == 'task_name']
+    cfg = A.cfg(fex)
+    ns_ok = False
+    fm_ok = False
+    for a in appends:
+        for cn in cfg_nodes_for(cfg, a):
+            texts = []
+            for x, pol in cfg.facts_at(cn.id):
+                e = subst_single_assign(A, fex, x)
+                texts.append((src(e), pol))
+            for t, pol in texts:
+                if pol and "split('::')[:-1]" in t and '==' in t:
+                    ns_ok = True
+                if pol and t.startswith('re.fullmatch(') and "split('::')[-1]" in t:
+                    fm_ok = True
+    R.check(ns_ok and fm_ok, rid, 'Chain._expand_tasks', key_of('pattern', ns_ok, fm_ok), 'namespace compared segment-wise, name matched with fullmatch on the last segment',
+            'pattern inputs are not restricted to the own namespace segment-wise / not matched with fullmatch: a pattern can pull in tasks of other namespaces or partial names', where=where(fex))
+
+
+
 def run(A, R: Report, thorough: bool):
     R.explanation = ('CFG must-pass-through of the acyclicity gate in every _prepare implementation; handler analysis of the missing-input path; symbolic order of exclusion and '
                      'registration; a nominal type system over name strings (namespace / full name / slug) that flags textual prefix, suffix and substring tests between structured names; '
@@ -182,24 +204,7 @@ def run(A, R: Report, thorough: bool):
         else:
             R.violation('R08.3', f'{f.short}: skip `{t[:60]}`', key_of('skip', t), f'a declared task class is skipped under `{t}`: the chain no longer contains exactly the declared, non-abstract, non-excluded tasks', where=where(f, n))
     R.check(allowed >= 3, 'R08.3', 'Chain._create_tasks: skip conditions', key_of('skips', allowed), 'abstract / excluded / exclusion-pass are the only skips', 'the abstract or exclusion filter is missing', where=where(fct))
-    fex = A.func('Chain._expand_tasks')
-    appends = [n for n in A.typer.own_nodes(fex) if isinstance(n, ast.Call) and isinstance(n.func, ast.Attribute) and n.func.attr == 'append' and src(n.args[0]) == 'task_name']
-    cfg = A.cfg(fex)
-    ns_ok = False
-    fm_ok = False
-    for a in appends:
-        for cn in cfg_nodes_for(cfg, a):
-            texts = []
-            for x, pol in cfg.facts_at(cn.id):
-                e = subst_single_assign(A, fex, x)
-                texts.append((src(e), pol))
-            for t, pol in texts:
-                if pol and "split('::')[:-1]" in t and '==' in t:
-                    ns_ok = True
-                if pol and t.startswith('re.fullmatch(') and "split('::')[-1]" in t:
-                    fm_ok = True
-    R.check(ns_ok and fm_ok, 'R08.3', 'Chain._expand_tasks', key_of('pattern', ns_ok, fm_ok), 'namespace compared segment-wise, name matched with fullmatch on the last segment',
-            'pattern inputs are not restricted to the own namespace segment-wise / not matched with fullmatch: a pattern can pull in tasks of other namespaces or partial names', where=where(fex))
+    check_expand_tasks(A, R, 'R08.3')
 
     # ---- R08.4
     R.rule('R08.4', 'no textual prefix / suffix / substring test between structured names (namespace, full name, slug) without the separator', floor=2)
